@@ -921,7 +921,7 @@ func threeWayFns(p *Prog, pkgs ...string) []*ssa.Function {
 			}
 		}
 		n := strings.ToLower(f.Name())
-		if okPkg && (strings.Contains(n, "compare") || strings.Contains(n, "cmp")) {
+		if okPkg && (strings.Contains(n, "compare") || strings.Contains(n, "cmp") || strings.HasPrefix(n, "sgn")) {
 			out = append(out, f)
 		}
 	}
@@ -1000,4 +1000,75 @@ func debugMapRange(p *Prog) {
 			}
 		}
 	}
+}
+
+func debugSub(p *Prog) {
+	for _, f := range p.Funcs {
+		if !p.inScope(f) || f.Blocks == nil || f.Pkg == nil || !strings.HasSuffix(f.Pkg.Pkg.Path(), "semver") {
+			continue
+		}
+		for _, b := range f.Blocks {
+			for _, in := range b.Instrs {
+				if bo, ok := in.(*ssa.BinOp); ok && bo.Op == token.SUB {
+					fmt.Printf("%s\t%s\t%s - %s\t%s\n", p.pos(bo.Pos()), fnKey(f), bo.X, bo.Y, bo.Type())
+				}
+			}
+		}
+	}
+}
+
+// noWideSubtractRule: a three-way comparator or sign helper does not take the
+// sign of a difference of two wide integers: a - b wraps around when the
+// operands are more than half the range apart, and the sign of the wrapped
+// value orders them the wrong way (antisymmetry and transitivity fail for
+// those pairs only). Differences of values widened from 8/16-bit types cannot
+// wrap and are accepted.
+func noWideSubtractRule(r *Report, p *Prog, rule string, fns []*ssa.Function) int {
+	narrow := func(v ssa.Value) bool {
+		if c, ok := v.(*ssa.Convert); ok {
+			if b, ok := c.X.Type().Underlying().(*types.Basic); ok {
+				switch b.Kind() {
+				case types.Uint8, types.Int8, types.Uint16, types.Int16, types.Bool:
+					return true
+				}
+			}
+		}
+		if c, ok := v.(*ssa.Const); ok && c.Value != nil {
+			return true // a constant offset (i - 1) is index arithmetic, not an operand difference
+		}
+		return false
+	}
+	n := 0
+	for _, f := range fns {
+		if f == nil || f.Blocks == nil {
+			continue
+		}
+		n++
+		key := fnKey(f) + ": no sign of a wide difference"
+		bad := ""
+		for _, b := range f.Blocks {
+			for _, in := range b.Instrs {
+				bo, ok := in.(*ssa.BinOp)
+				if !ok || bo.Op != token.SUB {
+					continue
+				}
+				bt, ok := bo.Type().Underlying().(*types.Basic)
+				if !ok || bt.Info()&types.IsInteger == 0 {
+					continue
+				}
+				if narrow(bo.X) || narrow(bo.Y) {
+					continue
+				}
+				if bad == "" {
+					bad = p.pos(bo.Pos())
+				}
+			}
+		}
+		if bad != "" {
+			r.bad(rule, key, bad, "the comparator subtracts two wide integers: the difference wraps around when they are more than half the range apart, so the sign it yields orders such a pair the wrong way (and differently in the two directions); compare with < and > instead")
+		} else {
+			r.ok(rule, key, p.pos(f.Pos()), "no subtraction of wide integer operands (differences of widened bytes cannot wrap)")
+		}
+	}
+	return n
 }
